@@ -506,7 +506,6 @@ func multipleSexesGuard(p *load.Prog) (bool, string) {
 var tableSideConditions = map[string]func(p *load.Prog) (bool, string){
 	"P3 index []string in gedcom.parseMonthName":                                     monthNameGroup,
 	"P3 slice string in (gedcom.Date).String":                                        monthAbbreviation,
-	"P3 index []string const 0 in (gedcom.DateConstraint).String":                    splitFirst,
 	"P3 slice string in (gedcom.SimilarityOptions).String":                           goSyntaxPrefix,
 	"P3 index []bool in gedcom.jaro":                                                 jaroWindow,
 	"P3 index string in gedcom.JaroWinkler":                                          jaroWinklerPrefix,
@@ -733,6 +732,9 @@ func (c *e1ctx) discharge(s *e1.Site) (string, bool) {
 			return r, true
 		}
 		if r, ok := ruleNonEmpty(s); ok {
+			return r, true
+		}
+		if r, ok := ruleSplitFirst(s); ok {
 			return r, true
 		}
 	case "P4":
@@ -1913,4 +1915,24 @@ func ruleNonEmpty(s *e1.Site) (string, bool) {
 
 func lenArgOf(v ssa.Value) (ssa.Value, bool) {
 	return lenArg(v)
+}
+
+// ruleSplitFirst (R-split): strings.Split(s, sep)[0] with a non-empty constant separator: Split returns at least
+// one element for every s when the separator is not empty.
+func ruleSplitFirst(s *e1.Site) (string, bool) {
+	ia, ok := s.Instr.(*ssa.IndexAddr)
+	if !ok {
+		return "", false
+	}
+	if k, isK := su.ConstInt(ia.Index); !isK || k != 0 {
+		return "", false
+	}
+	c, ok := ia.X.(*ssa.Call)
+	if !ok || !su.CalleeIs(&c.Call, "strings", "Split") {
+		return "", false
+	}
+	if sep, isK := su.ConstString(c.Call.Args[1]); !isK || sep == "" {
+		return "", false
+	}
+	return "R-split: first element of strings.Split with a non-empty constant separator (never an empty slice)", true
 }
